@@ -338,9 +338,10 @@ def canon(s):
             break
         s = s[:m.start()] + s[m.end():c] + s[c + 1:]
     # `ok(A)@OK` (payload of Result::ok) and `map_err(A, f)@OK` / `inspect_err(A, f)@OK` are the Ok payload of A itself
+    # (not `or_else`: its closure can turn an Err into an Ok of its own)
     for _ in range(20):
         hit = False
-        for m_ in re.finditer(r"(?<![A-Za-z_])(ok|map_err|inspect_err|or_else)\(", s):
+        for m_ in re.finditer(r"(?<![A-Za-z_])(ok|map_err|inspect_err)\(", s):
             o = m_.end() - 1
             c = _match_paren(s, o)
             if c < 0 or not s.startswith("@OK", c + 1):
